@@ -1074,6 +1074,12 @@ func qpDrawStreamPlan(rt *rapid.T, focus string) qpStreamPlan {
 		dataW = []int{8, 3, 3, 2, 1, 1, 0, 0, 0, 0, 6, 5, 4, 4}
 		resetW = []int{5, 5, 3, 1, 1, 0, 0, 0, 4, 5}
 		kindW = []int{12, 7, 5, 1, 0}
+		if vs.Config() == "peer-closeread" {
+			// the application read-closes streams in mid-history: data that arrives
+			// afterwards is discarded but still fixes the highest offset, and a final
+			// size below it is an error
+			kindW[4] = 3
+		}
 	}
 	p.slots = qpDrawSlots(c, p.base.side, 4)
 	nops := vs.Range(c, 1, vs.Thorough(30, 60))
